@@ -54,7 +54,11 @@ func c09Head(e *Env, first string, resp bool) (string, string) {
 	}
 	b.WriteString(first + nl(false))
 	n := e.Range(0, 4)
-	if !resp {
+	minimal := !resp && strings.HasSuffix(first, "HTTP/1.0") && strings.Contains(first, " / ")
+	if minimal {
+		n = 0 // the shortest heads there are: a request line and the blank line
+	}
+	if !resp && !minimal {
 		b.WriteString("Host: example.com" + nl(false))
 	}
 	for i := 0; i < n; i++ {
@@ -86,11 +90,13 @@ var c09Conts = []string{
 	"\n\n",
 	"A: b\r\n\r\n",
 	"0123456789",
+	"body line\n\nwith a bare blank line",
+	"x\n\n",
 }
 
 func scenC09(e *Env) func() {
 	p := &c09Plan{ReduceMem: e.Chance(30), ReadBuf: Pick(e, 4096, 4096, 512)}
-	p.Head, p.Endings = c09Head(e, Pick(e, "GET /probe HTTP/1.1", "GET /probe?x=1 HTTP/1.1", "POST /probe HTTP/1.1", "GET /probe HTTP/1.0"), false)
+	p.Head, p.Endings = c09Head(e, Pick(e, "GET /probe HTTP/1.1", "GET /probe?x=1 HTTP/1.1", "POST /probe HTTP/1.1", "GET /probe HTTP/1.0", "GET / HTTP/1.0", "M / HTTP/1.0"), false)
 	if strings.HasPrefix(p.Head, "POST") || strings.Contains(p.Head, "\nPOST") {
 		// give the POST an explicit empty body so the head is the whole message
 		p.Head = strings.Replace(p.Head, "Host: example.com", "Content-Length: 0\r\nHost: example.com", 1)
